@@ -1327,7 +1327,7 @@ class TrigInfo:
                 if trig_ok and self.active_expr:
                     active_vars = State.notify_var_get(self.state_active_ident, new_vars)
                     try:
-                        trig_ok = await self.active_expr.eval(active_vars)
+                        trig_ok = bool(await self.active_expr.eval(active_vars))
                     except Exception as e:
                         self.active_expr.log_exception(e)
                         trig_ok = False
@@ -1377,7 +1377,8 @@ class TrigInfo:
 
     async def _call_expression(self, ast_expr, notify_info):
         try:
-            return await ast_expr.eval(notify_info)
+            # the truth test is part of the evaluation: an object that can't be tested is an error in the expression
+            return bool(await ast_expr.eval(notify_info))
         except Exception as exc:
             ast_expr.log_exception(exc)
             return False
